@@ -7,8 +7,12 @@ C17_SAFE_JOIN_RULES    the segment rules of `loader::safe_join`: the separator t
                        what the source says now (dropping a rule makes `escape_rejected` fail).
                        Only the rules are extracted, not how the accepted segments are joined
                        (that is compared behaviourally), so `push` vs. `join` refactors are free.
-C17_PATH_LOADER_SHAPE  what `path_loader` captures as its base (`let dir = …;` before the closure)
-                       and every `fs::…` call in it.  The model's loader keeps the configured
+C17_PATH_LOADER_SHAPE  what `path_loader` captures as its base (`let dir = …;` before the closure),
+                       every `fs::…` call in it, the variable bound to `safe_join`'s result and
+                       what is handed to the read, every call whose name is in a file-system
+                       vocabulary (whatever its spelling), and how often the joined path, the
+                       base and the name are mentioned at all (a reassignment, `.push(`, `.join(`,
+                       `format!("{name}…")` or a second probe changes one of the counts).  The model's loader keeps the configured
                        base verbatim and reads exactly one path per request.
 C17_LOADER_ENTRY_SITES the functions of the engine that ask the template store / loader for a
                        template by name (`get_template(`, `join_template_path(`, `templates.get(`,
@@ -88,10 +92,33 @@ def _path_loader_shape(repo):
     base = re.sub(r"\s+", "", bases[0])
     fs_calls = re.findall(r"\bfs::(\w+)\s*\(", body)
     joins = [re.sub(r"\s+", "", x) for x in re.findall(r"safe_join\s*\((.*?)\)", body)]
+    # the variable bound to safe_join's result, and what is handed to the read
+    jb = re.findall(r"let\s+Some\(\s*(.*?)\s*\)\s*=\s*safe_join\s*\(", body)
+    if len(jb) != 1:
+        raise KeyError("path_loader: `let Some(<var>) = safe_join(..)`")
+    binding = re.sub(r"\s+", " ", jb[0])
+    var = binding.split(" ")[-1]
+    read_args = [re.sub(r"\s+", "", x) for x in re.findall(r"\bread_to_string\s*\((.*?)\)", body)]
+    # every call / path segment whose name belongs to a file-system vocabulary, whatever its spelling
+    # (`fs::x(..)`, `.x(..)`, `File::open`, `OpenOptions::new`, …)
+    vocab = ("exists|try_exists|is_file|is_dir|is_symlink|metadata|symlink_metadata|read|read_to_string|read_to_end|"
+             "read_dir|read_link|canonicalize|open|create|create_new|write|copy|rename|remove_file|remove_dir|"
+             "remove_dir_all|hard_link|File|OpenOptions|DirEntry|ReadDir|walk_dir|current_dir|set_current_dir|include_str|include_bytes")
+    fs_vocab = [m.group(1) for m in re.finditer(r"(?<![\w])(%s)\s*(?:\(|::|!)" % vocab, body)]
+
+    def uses(v):
+        return len(re.findall(r"(?<![\w.])%s\b" % re.escape(v), body))
     lean = (f"def c17PathLoaderBase : String := {lean_str(base)}\n"
             f"def c17PathLoaderFsCalls : List String := [{', '.join(lean_str(x) for x in fs_calls)}]\n"
-            f"def c17PathLoaderJoins : List String := [{', '.join(lean_str(x) for x in joins)}]")
-    return {"base": base, "fs_calls": fs_calls, "joins": joins}, lean
+            f"def c17PathLoaderJoins : List String := [{', '.join(lean_str(x) for x in joins)}]\n"
+            f"def c17PathLoaderJoinBinding : String := {lean_str(binding)}\n"
+            f"def c17PathLoaderReadArgs : List String := [{', '.join(lean_str(x) for x in read_args)}]\n"
+            f"def c17PathLoaderFsVocab : List String := [{', '.join(lean_str(x) for x in fs_vocab)}]\n"
+            f"def c17PathLoaderPathUses : Nat := {uses(var)}\n"
+            f"def c17PathLoaderDirUses : Nat := {uses('dir')}\n"
+            f"def c17PathLoaderNameUses : Nat := {uses('name')}")
+    return {"base": base, "fs_calls": fs_calls, "joins": joins, "join_binding": binding, "read_args": read_args,
+            "fs_vocab": fs_vocab, "path_uses": uses(var), "dir_uses": uses("dir"), "name_uses": uses("name")}, lean
 
 
 @item("C17_LOADER_ENTRY_SITES")
